@@ -13,8 +13,8 @@ import (
 // same function was verified under an unproved assumption and is not entered into a ledger.
 func poisons(kind string) bool {
 	switch kind {
-	case "inv-entry", "inv-preserved", "requires", "ensures", "at-call", "at-return", "body-calls", "fresh-writes", "decreases",
-		"folded-key", "folded-store", "folded-elems", "nonnil-store", "nonnil-init", "nonnil-append", "nonnil-elems", "typed-nil", "nlfree-store", "nlfree-msg", "shared-write":
+	case "inv-entry", "inv-preserved", "requires", "ensures", "at-call", "at-return", "body-calls", "body-stores", "fresh-writes", "decreases",
+		"folded-key", "folded-store", "folded-elems", "nonnil-store", "nonnil-init", "nonnil-append", "nonnil-elems", "typed-nil", "nlfree-store", "nlfree-msg", "shared-write", "immutable-store":
 		return true
 	}
 	return false
